@@ -182,7 +182,8 @@ def xml_node(n, dm, nvars=0):
     if n.kind == "history": a += ' type="shallow"'
     s = "<%s%s>" % (tag, a)
     if n.kind == "scxml" and nvars:
-        s += "<datamodel>%s</datamodel>" % "".join('<data id="Var%d" expr="0"/>' % i for i in range(nvars))
+        typ = ' type="int"' if dm == "promela" else ""     # the Promela back-end needs declared types
+        s += "<datamodel>%s</datamodel>" % "".join('<data id="Var%d"%s expr="0"/>' % (i, typ) for i in range(nvars))
     for b in n.onentry: s += "<onentry>%s</onentry>" % "".join(xml_exec(e, dm) for e in b)
     for b in n.onexit: s += "<onexit>%s</onexit>" % "".join(xml_exec(e, dm) for e in b)
     for t in n.trans:
@@ -210,7 +211,7 @@ def xml(n, dm="null", nvars=0, flavor=None):
 class Gen:
     def __init__(self, rng, max_states=10, events=("e", "f", "g"), p_history=0.3, p_parallel=0.35,
                  p_exec=0.5, p_fail=0.08, p_targetless=0.15, p_internal=0.15, p_multi=0.25, p_eventless=0.15,
-                 p_cond=0.25, p_initial_elem=0.3, p_final=0.3, p_loop=0.25, dm="null", nvars=0, p_conderr=0.0):
+                 p_cond=0.25, p_initial_elem=0.3, p_final=0.3, p_loop=0.25, dm="null", nvars=0, p_conderr=0.0, allow_in=True):
         self.__dict__.update(locals())
         self.n = 0
         self.uv = 0
@@ -305,6 +306,8 @@ class Gen:
         if x < 0.15: return "never"
         if self.nvars and x < 0.5: return "var:%d:%d" % (r.randrange(self.nvars), r.choice([0, 1, 2, 3]))
         ids = getattr(self, "ids", ["s1"])
+        if not self.allow_in:
+            return "var:%d:%d" % (r.randrange(self.nvars), r.choice([0, 1, 2, 3])) if self.nvars else "never"
         return "in:" + r.choice(ids)
 
     def decorate(self, root):
